@@ -383,6 +383,24 @@ func postC09(c *checker) {
 				return nil
 			}
 		}
+		// headers that were accepted and then removed by marking (and not accepted again since) are
+		// not ancestors of the reported tip: whatever else is answered for them, never "in the
+		// most-work chain"
+		for _, l := range w.Removed {
+			u := hdr.Get(l)
+			if w.Tree.Get(hdr.RH(u.Hash)) != nil {
+				continue
+			}
+			c.n += 2
+			if _, inBest, err := w.Repo.CheckHeader(w.Ctx, u.Hash); err == nil && inBest {
+				c.fail("removed-header-in-best-chain", opClass(c.st)+"|check-header", "CheckHeader reports "+l+", which was removed by marking, as in the most-work chain")
+				return nil
+			}
+			if _, _, inBest, err := w.Repo.GetHeader(w.Ctx, u.Hash); err == nil && inBest {
+				c.fail("removed-header-in-best-chain", opClass(c.st)+"|get-header", "GetHeader reports "+l+", which was removed by marking, as in the most-work chain")
+				return nil
+			}
+		}
 		// ranges
 		starts := []int{0, 1, best - 1, best, best + 1}
 		if w.Cfg.Base > 0 {
